@@ -86,10 +86,11 @@ CHEM_TEMPLATES = [
 
 
 @st.composite
-def st_mol_chem(draw, bases=("sto-3g", "6-31g"), levels=(1,), max_atoms=3, max_elec=16):
+def st_mol_chem(draw, bases=("sto-3g", "6-31g"), levels=(1,), max_atoms=3, max_elec=16, open_shell=False):
     """one of a list of chemically reasonable molecules with jittered geometry (bond lengths +-10%, angle +-0.2 rad),
     generic orientation; for checks that need routinely converging SCF calculations"""
-    cands = [t for t in CHEM_TEMPLATES if len(t[0]) <= max_atoms and sum(ZNUM[e] for e in t[0]) <= max_elec]
+    cands = [t for t in CHEM_TEMPLATES if len(t[0]) <= max_atoms and sum(ZNUM[e] for e in t[0]) <= max_elec
+             and (not open_shell or t[3] > 0)]
     t = draw(st.sampled_from(cands))
     els, bonds, ang, spin = t[0], t[1], t[2], t[3]
     charge = t[4] if len(t) > 4 else 0
